@@ -39,7 +39,7 @@ Log2(n) == CHOOSE k \in 0..8 : P2[k + 1] = n
 \* int(f * rate ** k) for a positive rational rate r = <<num, den>>; k may be negative
 Scale(f, r, k) == IF k >= 0 THEN (f * Pow(r[1], k)) \div Pow(r[2], k)
                   ELSE (f * Pow(r[2], 0 - k)) \div Pow(r[1], 0 - k)
-RoundDiv(a, b) == (2 * a + b) \div (2 * b)          \* round(a / b); no ties occur (see MC_Arch)
+RoundDiv(a, b) == (2 * a + b) \div (2 * b)          \* round(a / b) away from ties (MC_Arch: NoRoundingTies)
 FloorDivRate(x, r) == (x * r[2]) \div r[1]            \* x // rate
 CeilDiv(a, b) == (a + b - 1) \div b
 FirstIndex(s, v) == CHOOSE i \in 1..Len(s) : s[i] = v /\ \A j \in 1..(i - 1) : s[j] # v
@@ -243,10 +243,12 @@ DesignClause(c, R) ==
         fails == {sz \in Sizes(c) : bad(sz) # "ok"}
     IN IF fails = {} THEN "ok" ELSE bad(CHOOSE sz \in fails : TRUE)
 
-\* What the tree as coded does with configuration c: "none" or <<where, kind>> of its defect.
+\* What the tree as coded does with configuration c: "ok" or the first failing step ...
 AsCodedOutcome(c) ==
     LET r == Run(c, AsCoded, c.ms, 2 * c.ms) IN
     IF r.build # "ok" THEN r.build ELSE r.fwd
+\* ... and the <<where, kind>> under which a rejection of c is reported ("unpredicted": the
+\* transcription of the tree as coded sees nothing wrong with c)
 AsCodedKind(c) ==
     LET o == AsCodedOutcome(c) IN
     IF Boundary(c) THEN <<"Model", "head_stride_eq_max_stride_not_in_list">>
